@@ -185,6 +185,10 @@ func buildScenarios(t *gen.Tree, good []string, rng *rand.Rand, tier string) []*
 		inject: []string{"mkdirat:error=EACCES"}, injectOn: filepath.Join(src, "newdir")})
 	out = append(out, &scen{family: "inject-write-ENOSPC-new-file", tree: t, srcArg: ".", names: pick(1), cwdRel: src, out: "ABS:" + filepath.Join(src, "mock_gen.go"), prior: "absent", fail: true, wantAny: []string{"mock_gen.go", "no space"},
 		inject: []string{"write:error=ENOSPC"}, injectOn: filepath.Join(src, "mock_gen.go")})
+	for _, pr := range []string{"old", "own"} {
+		out = append(out, &scen{family: "inject-write-ENOSPC-existing-file", tree: t, srcArg: ".", names: pick(1), cwdRel: src, out: "ABS:" + filepath.Join(src, "gen/mock_gen.go"), prior: pr, fail: true, wantAny: []string{"mock_gen.go", "no space"},
+			inject: []string{"write:error=ENOSPC"}, injectOn: filepath.Join(src, "gen/mock_gen.go")})
+	}
 	out = append(out, &scen{family: "stdout-device-full", tree: t, srcArg: ".", names: pick(1), cwdRel: src, prior: "absent", fail: true, wantAny: []string{"no space", "/dev/stdout", "write"}, stdoutTo: "/dev/full"})
 	// -rm must not remove a directory tree that happens to sit at -out
 	for _, o := range []string{"gendir", "gendir/", "../" + filepath.Base(src) + "_sibling"} {
@@ -650,7 +654,13 @@ func runCLI(prop, tier string) int {
 		runC19Corpus(run, moq, work, tier)
 	}
 	for id, what := range knownHits {
-		run.Known(id, what)
+		title := ""
+		for _, k := range loadKnown().Findings {
+			if k.ID == id {
+				title = k.Title + " :: "
+			}
+		}
+		run.Known(id, title+what)
 	}
 	run.Set("executions_per_family", families)
 	run.Set("ledger_events_inside_tree", int(ledgerEvents))
